@@ -72,6 +72,50 @@ fn observe(g: &GraphModel, strat: &str, cfg: &Cfg) -> String {
         }
     }
 }
+/// A scripted chooser: the k-th question (over all traces of the run) is answered with `script[k] % options`
+/// (0 once the script is exhausted). The Lean model consumes the same answer list.
+#[derive(Clone)]
+struct ScriptChooser { script: Arc<Vec<usize>>, pos: Arc<std::sync::atomic::AtomicUsize> }
+impl ScriptChooser {
+    fn answer(&self, n: usize) -> usize {
+        let k = self.pos.fetch_add(1, std::sync::atomic::Ordering::SeqCst);
+        if k < self.script.len() { self.script[k] % n } else { 0 }
+    }
+}
+impl stateright::Chooser<GraphModel> for ScriptChooser {
+    type State = ();
+    fn new_state(&self, _seed: u64) {}
+    fn choose_initial_state(&self, _: &mut (), initial_states: &[u16]) -> usize { self.answer(initial_states.len()) }
+    fn choose_action(&self, _: &mut (), _cur: &u16, actions: &[u8]) -> usize { self.answer(actions.len()) }
+}
+
+/// run the real simulation checker with a scripted chooser (1 thread)
+fn observe_sim(g: &GraphModel, cfg: &Cfg, script: &[usize]) -> String {
+    let visits: Arc<Mutex<Vec<Vec<u16>>>> = Arc::new(Mutex::new(vec![]));
+    let v2 = visits.clone();
+    let g2 = g.clone();
+    let cfg = cfg.clone();
+    let chooser = ScriptChooser { script: Arc::new(script.to_vec()), pos: Arc::new(std::sync::atomic::AtomicUsize::new(0)) };
+    let r = catch_unwind(AssertUnwindSafe(move || {
+        let mut b = g2.clone().checker().threads(1).finish_when(cfg.has_disc())
+            .visitor(move |p: stateright::Path<u16, u8>| { v2.lock().unwrap().push(p.into_states()); });
+        if let Some(d) = cfg.max_depth { b = b.target_max_depth(d); }
+        if let Some(t) = cfg.target { b = b.target_state_count(t); }
+        let c = b.spawn_simulation(0, chooser).join();
+        summarize(&c)
+    }));
+    match r {
+        Err(_) => "panic".into(),
+        Ok((uniq, count, depth, disc)) => {
+            let vs = visits.lock().unwrap();
+            format!("(visits {}) (uniq {}) (count {}) (depth {}) (disc {})",
+                format!("({})", vs.iter().map(|p| path_sx(p)).collect::<Vec<_>>().join(" ")),
+                uniq, count, depth,
+                format!("({})", disc.iter().map(|(i, p)| format!("({} {})", i, path_sx(p))).collect::<Vec<_>>().join(" ")))
+        }
+    }
+}
+
 fn summarize<C: Checker<GraphModel>>(c: &C) -> (usize, usize, usize, BTreeMap<usize, Vec<u16>>) {
     let mut disc = BTreeMap::new();
     for (name, path) in c.discoveries() {
@@ -153,6 +197,30 @@ fn main() {
         let strat = strategies[r.below(3)];
         case(&mut out, &g, strat, &cfg, &prop, true);
         out.stat("with-run-controls");
+        // simulation with a scripted chooser (all initial states inside the boundary so that every trace counts
+        // at least one state and the target state count ends the run)
+        if prop == "c03" || prop == "c11" || prop == "c12" {
+            let mut gs = g.clone();
+            for s in gs.init.clone() { gs.bnd[s as usize] = true; }
+            let script: Vec<usize> = (0..r.below(40)).map(|_| r.below(12)).collect();
+            let scfg = Cfg {
+                max_depth: if r.chance(1, 3) { Some(r.range(1, 6)) } else { None },
+                target: Some(r.range(1, 12)),
+                finish: match r.below(5) { 0 => "any".into(), 1 => "anyf".into(), 2 => "allf".into(), _ => "all".into() },
+            };
+            let obs = observe_sim(&gs, &scfg, &script);
+            let (gsx, psx, csx) = (gs.graph_sx(), gs.props_sx(), scfg.sx());
+            out.m(&format!("sim {} {} {} ({})", gsx, psx, csx, script.iter().map(|x| x.to_string()).collect::<Vec<_>>().join(" ")), &obs);
+            out.o(&format!("o-chk {} sim {} {} {} ({})", prop, gsx, psx, csx, obs));
+            out.stat("strategy-simulation");
+            if obs.contains("(disc ())") { out.stat("sim-no-discovery"); } else { out.stat("sim-with-discovery"); }
+            // seed replay (C12): the same seed and chooser replays the same run
+            if prop == "c12" && c % 8 == 0 {
+                let obs2 = observe_sim(&gs, &scfg, &script);
+                if obs2 != obs { out.v("sim-replay-differs", &format!("graph {} script {:?}", gsx, script)); }
+                out.stat("sim-replays-compared");
+            }
+        }
         out.distinct(&(g.graph_sx(), g.props_sx()));
         if c < 3 { out.sample(&format!("random graph {} props {} cfg {}", g.graph_sx(), g.props_sx(), cfg.sx())); }
     }
